@@ -225,6 +225,27 @@ func (e *L2) DeliverWithGas(msg sdk.Msg, limit uint64) Result {
 	return deliver(ctx, e.Router, msg)
 }
 
+// HandleInPlace runs the handler of msg directly on e.Ctx (no branch of its own) under a gas
+// limit, the way a calling module invokes a message server; a panic is recovered and reported.
+// What the handler wrote before it returned or panicked stays in e.Ctx for inspection.
+func (e *L2) HandleInPlace(msg sdk.Msg, limit uint64) (res Result) {
+	ctx := e.Ctx.WithGasMeter(storetypes.NewGasMeter(limit)).WithEventManager(sdk.NewEventManager())
+	defer func() {
+		if r := recover(); r != nil {
+			res = Result{Panic: r, Err: fmt.Errorf("panic: %v", r)}
+		}
+		res.Gas = ctx.GasMeter().GasConsumedToLimit()
+	}()
+	h := e.Router.Handler(msg)
+	if h == nil {
+		return Result{Err: fmt.Errorf("unroutable message")}
+	}
+	if _, err := h(ctx, msg); err != nil {
+		return Result{Err: err}
+	}
+	return Result{}
+}
+
 // Dump returns the raw content of every store.
 func (e *L2) Dump() []KV { return dumpStores(e.Ctx, e.Keys, nil) }
 
